@@ -237,9 +237,19 @@ def show_events(evs):
 def split_not(d):
     """'Not Not X' -> ('X', False); 'Not X' -> ('X', True): (core description, negated?)"""
     neg = False
-    while d.startswith("Not "):
-        d = d[4:]
-        neg = not neg
+    while True:
+        if d.startswith("Not "):
+            d = d[4:]
+            neg = not neg
+        elif d.endswith((" Eq False", " Ne True")):      # `x == false`, `x != true`
+            d = d[:d.rindex(" ")]
+            d = d[:d.rindex(" ")]
+            neg = not neg
+        elif d.endswith((" Eq True", " Ne False")):
+            d = d[:d.rindex(" ")]
+            d = d[:d.rindex(" ")]
+        else:
+            break
     return d, neg
 
 
